@@ -2,6 +2,7 @@ package main
 
 import (
 	"github.com/ipfs/go-cid"
+	mh "github.com/multiformats/go-multihash"
 )
 
 // C19 producer: generated valid archives (CARv1; CARv2 with data/index padding, with and without an
@@ -264,8 +265,56 @@ func c19Malformed(c *Ctx, r *RNG, a Arch) {
 	emitCli(c, "concat", VL{VN(1)}, VL{VB(f), VB(a.file)}, VL{}, false)
 }
 
+// c19Examples replays the instance of coq/proofs/CliExamples.v (blocks "a" (raw, sha2-256), "id" (raw,
+// identity), "bc" (dag-cbor, sha2-256), "a" again; root = the first CID; as a CARv1 and as an
+// index-less CARv2 with 7 bytes of data padding) through the commands the Examples are about.
+func c19Examples(c *Ctx) {
+	b1 := Blk{mkCid(1, 0x55, mh.SHA2_256, -1, []byte("a")), []byte("a")}
+	bi := Blk{mkCid(1, 0x55, mh.IDENTITY, -1, []byte("id")), []byte("id")}
+	b2 := Blk{mkCid(1, 0x71, mh.SHA2_256, -1, []byte("bc")), []byte("bc")}
+	mk := func(roots []cid.Cid, v2 bool) Arch {
+		a := Arch{roots: roots, blks: []Blk{b1, bi, b2, b1}, ver: 1}
+		a.payload = refPayload(a.roots, a.blks)
+		a.file = a.payload
+		if v2 {
+			a.ver, a.dpad = 2, 7
+			a.file = buildV2(a.payload, 7, 0, 0, false)
+		}
+		return a
+	}
+	v1 := mk([]cid.Cid{b1.Cid}, false)
+	v2 := mk([]cid.Cid{b1.Cid}, true)
+	rootless := mk([]cid.Cid{}, false)
+	ex := VL{v1.desc()}
+	sel := VL{VB(b1.Cid.Bytes()), VB(bi.Cid.Bytes())}
+	none := VT("none")
+	emitCli(c, "list", VL{}, fvals(v2), ex, true)
+	emitCli(c, "root", VL{}, fvals(v2), ex, true)
+	emitCli(c, "filter", VL{sel, VN(0), VN(1), VN(0)}, VL{VB(v2.file), none}, ex, true)
+	emitCli(c, "filter", VL{sel, VN(0), VN(2), VN(0)}, VL{VB(v1.file), VB(v2.file)}, ex, true)
+	o := emitCli(c, "index", VL{VN(0), VN(2)}, fvals(v1), ex, true)
+	emitCli(c, "indexcreate", VL{VN(0)}, fvals(v1), ex, true)
+	if f, ok := o.(VL)[1].(VB); ok {
+		emitCli(c, "indexcreate", VL{VN(0)}, VL{f}, ex, true)
+		emitCli(c, "detach", VL{}, VL{f}, VL{v1.desc(), VN(3), VN(0)}, true)
+	}
+	emitCli(c, "index", VL{VN(2), VN(2)}, fvals(v2), ex, true)
+	emitCli(c, "index", VL{VN(1), VN(2)}, fvals(v2), ex, true)
+	emitCli(c, "index", VL{VN(0), VN(1)}, fvals(v2), ex, true)
+	emitCli(c, "index", VL{VN(2), VN(1)}, fvals(v2), VL{}, false)
+	emitCli(c, "detach", VL{}, fvals(v1), VL{}, false)
+	emitCli(c, "detach", VL{}, fvals(v2), VL{}, false)
+	emitCli(c, "concat", VL{VN(1)}, fvals(v2, v1), VL{v2.desc(), v1.desc()}, true)
+	emitCli(c, "concat", VL{VN(2)}, fvals(v2, v1), VL{v2.desc(), v1.desc()}, true)
+	emitCli(c, "concat", VL{VN(1)}, fvals(v1, rootless), VL{}, false)
+	emitCli(c, "verify", VL{}, fvals(rootless), VL{}, false)
+	emitCli(c, "getblock", VL{VB(b2.Cid.Bytes())}, fvals(v2), ex, true)
+	c.Count("examples:theorem-instance")
+}
+
 func init() {
 	register("c19", func(c *Ctx) {
+		c19Examples(c)
 		n := 40 * c.Scale
 		maxBlocks := 9 // buckets stay below sort.Sort's insertion-sort threshold (stable), see notes/design/C19.md
 		archs := make([]Arch, n)
